@@ -5,6 +5,7 @@
 //! A panic inside a handler is caught and reported as `PANIC`.
 
 mod wire;
+mod astdump;
 mod comp;
 
 use std::io::{BufRead, Write};
